@@ -17,8 +17,28 @@ Cyclic(g) == \E v \in V : v \in Reach(g, Succ(g, v), {})
 Cases == LET S == SetToSeq({g \in Graphs : WellFormed(g)}) IN
   [i \in 1..Len(S) |-> [id |-> i, nv |-> NV, cyclic |-> Cyclic(S[i]), refs |-> [v \in V |-> SetToSeq(S[i].refs[v])], frefs |-> SetToSeq(S[i].frefs)]]
 ASSUME ndJsonSerialize("cases.ndjson", Cases)
-\* tiny model of the property itself: two processes building two keys in any order with a
-\* deterministic builder satisfy the invariant (sanity of the history machine)
-Digest(k) == [key |-> k, proc |-> 0, asm |-> k * 7, used |-> k, out |-> k + 1]
-MCNext == Len(hist) < 4 /\ \E k \in 1..2, p \in 1..2 : Build([Digest(k) EXCEPT !.proc = p])
+(* Second case space: FEATURE PROGRAMS.  A source is a set of at most MaxFeat language features out of
+   Feats; the driver owns the text of each feature (a few declarations and statements, as a program and as
+   a template) and composes the chosen ones in a fixed order.  The features are the constructs whose
+   emission goes through maps, caches or package-level state in the compiler: multi-value package
+   variables, constants converted to named types, closures capturing several parameters, complex
+   arithmetic helpers, same-line functions, imported files with same-line macros, native packages ... *)
+CONSTANTS MaxFeat, Leaky
+Feats == {"multival", "namedbool", "ifacetrue", "namedconst", "closure2", "closure3", "complexmul", "complexsub",
+          "sameline", "maplit", "switchgoto", "deferrecover", "natives", "twofiles", "methodsval", "structs"}
+FeatCases == LET S == SetToSeq({F \in SUBSET Feats : Cardinality(F) <= MaxFeat})
+             IN [i \in 1..Len(S) |-> [id |-> 1000000 + i, feats |-> SetToSeq(S[i])]]
+ASSUME ndJsonSerialize("cases_feats.ndjson", FeatCases)
+
+(* Tiny model of the property itself, implementation-shaped: a process keeps state between builds
+   (package-level tables, pools, caches: `shared`).  With a builder whose output is a function of the key
+   only, every history of two processes building two keys in any order satisfies the invariant; with a
+   LEAKY builder - the digest of key 2 depends on whether the same process has built key 1 before - some
+   history violates it.  The check requires both outcomes (non-vacuity), and the driver accordingly
+   builds the cases in a different order in each process. *)
+VARIABLE shared
+Digest(k, p) == [key |-> k, proc |-> p, asm |-> IF Leaky /\ k = 2 /\ 1 \in shared[p] THEN 99 ELSE k * 7, used |-> k, out |-> k + 1]
+MCInit == Init /\ shared = [p \in 1..2 |-> {}]
+MCNext == /\ Len(hist) < 4
+          /\ \E k \in 1..2, p \in 1..2 : Build(Digest(k, p)) /\ shared' = [shared EXCEPT ![p] = @ \cup {k}]
 =============================================================================
